@@ -157,7 +157,7 @@ def check_interrupt(facts):
                 if ce[0] == "memwrite":
                     _cmp(findings, count, "interrupt entry", ce[2], se[2], care, ["C06"], "frame byte %d" % i)
         else:
-            findings.append({"props": ["C06"], "key": "interrupt entry|mem-count", "form": "interrupt entry", "aspect": "mem-count",
+            findings.append({"props": ["C06", "C10"], "key": "interrupt entry|mem-count", "form": "interrupt entry", "aspect": "mem-count",
                              "msg": "interrupt entry performs %d byte accesses, manual: %d" % (len(cm), len(sem.mem)), "witness": None, "detail": {}})
     return {"findings": findings, "ob": ob, "ok_traces": nok, "traces": len(outs)}
 
